@@ -305,24 +305,48 @@ def c07_marker_gen(rng, tier):
     return [marker_line(rng, "m%d" % i) for i in range(budget(tier, 6000, 150000))]
 
 
+def marker_ranges(f):
+    rs, bad = [], False
+    for t in (f["lines"].split(";") if f["lines"] != "-" else []):
+        if t == "x":
+            bad = True
+        elif t.startswith("r/"):
+            _, a, b, lb = t.split("/")
+            v = lambda x: int(x[1:], 16) + (V4P if x[0] == "4" else 0)
+            rs.append((v(a), v(b), lb))
+    return rs, bad
+
+
 def c07_marker_oracle(line, res):
-    """v4 and v4-mapped probes of one address must get one label (checked on the implementation's output)"""
+    """the declarative meaning, evaluated on the implementation's output: a file is accepted iff no line is bad, no
+    range is inverted and no two ranges share an address; every probe gets the label of the range containing it;
+    the IPv4 and the v4-mapped form of one address get one label"""
+    f = gens.fields(line)
+    rs, bad = marker_ranges(f)
+    srt = sorted(rs)
+    valid = (not bad and all(a <= b for a, b, _ in rs)
+             and all(srt[i][1] < srt[i + 1][0] for i in range(len(srt) - 1)))
+    if res == "ERR":
+        return "a well-formed marker file (disjoint, non-inverted ranges) was rejected" if valid else None
     if not res.startswith("OK "):
         return None
-    f = gens.fields(line)
+    if not valid:
+        return "a marker file with a bad line, an inverted range or overlapping ranges was accepted"
     parts = res.split(" ")
     labels = parts[2].split(",") if len(parts) > 2 and parts[2] else []
     toks = f["pr"].split(",") if f["pr"] != "-" else []
-    seen = {}
     for t, lb in zip(toks, labels):
         if t == "x":
             if lb != "-":
                 return "invalid address got a group label"
             continue
         v = int(t[1:], 16) + (V4P if t[0] == "4" else 0)
-        if v in seen and seen[v] != lb:
-            return "the IPv4 and the v4-mapped form of one address got different labels"
-        seen[v] = lb
+        want = "-"
+        for a, b, l in rs:
+            if a <= v <= b:
+                want = l
+        if lb != want:
+            return "address %s: label %s, but the range containing it says %s" % (t, lb, want)
     return None
 
 
@@ -388,14 +412,37 @@ def c07_cache_oracle(line, res):
     if not res.startswith("r="):
         return None
     items = res[2:].split(",") if res != "r=-" else []
-    ks = cache_gets(line)
-    if len(items) != len(ks):
-        return None
-    for (op, k), it in zip(ks, items):
-        if it.startswith("H"):
-            v = gens.unhx(it[1:])
-            if not v.startswith(k + b"|"):
-                return "get(%s) returned a value stored under another key (%r)" % (gens.hx(k), v[:20])
+    f = gens.fields(line)
+    ample = f["cap"] == "0"
+    live = {}      # key -> True while a binding with a one-hour lifetime must exist (ample capacity, no eviction)
+    n = 0
+    for op in (f["ops"].split(",") if f["ops"] != "-" else []):
+        a = op.split(":")
+        if a[0] == "S":
+            k = gens.unhx(a[1])
+            if a[4] == "0" and int(a[3]) >= 3600000:
+                live[k] = True
+            elif a[4] == "0":
+                live.pop(k, None)
+        elif a[0] == "E":
+            live.pop(gens.unhx(a[1]), None)
+        elif a[0] == "G" or a[0][0] == "R":
+            if n >= len(items):
+                return None
+            it = items[n]
+            n += 1
+            k = gens.unhx(a[1])
+            if it.startswith("H"):
+                v = gens.unhx(it[1:])
+                if not v.startswith(k + b"|"):
+                    return "get(%s) returned a value stored under another key (%r)" % (gens.hx(k), v[:20])
+            elif a[0] == "G" and ample and live.get(k):
+                return ("get(%s) missed although the key was stored with a one-hour lifetime, capacity is ample "
+                        "and nothing evicted it" % gens.hx(k))
+            if a[0][0] == "R":
+                was_live = live.pop(k, None)
+                if a[0] == "R2" and was_live:      # the race (and its store of k2) only happens when k was bound
+                    live[gens.unhx(a[2])] = True
     return None
 
 
